@@ -116,7 +116,7 @@ struct peer {
 	int used, fd, lsn, id;
 	struct pstep prog[MAXPROG]; int nprog, pc;
 	long since, total;
-	int eof;
+	int eof, deaf;
 };
 static struct peer peers[MAXPEER];
 #define MAXLSN 4
@@ -188,6 +188,7 @@ static void peer_run_prog(struct peer *p)
 		case 's': peer_send(p, s->data.p, s->data.n); break;
 		case 'c': TR("pact %d close", p->id); peer_close(p, 0); break;
 		case 'r': TR("pact %d reset", p->id); peer_close(p, 1); break;
+		case 'z': { int sz = 4096; TR("pact %d deaf", p->id); p->deaf = 1; setsockopt(p->fd, SOL_SOCKET, SO_RCVBUF, &sz, sizeof(sz)); break; }   /* never reads again */
 		case 'w': TR("pact %d shutwr", p->id); if (p->fd >= 0) shutdown(p->fd, SHUT_WR); nprogress++; break;
 		default: break;
 		}
@@ -198,7 +199,7 @@ static char rxbuf[65536];
 static void peer_service(struct peer *p)
 {
 	int guard = 0;
-	while (p->fd >= 0 && !p->eof && guard++ < 64) {
+	while (p->fd >= 0 && !p->eof && !p->deaf && guard++ < 64) {
 		ssize_t n = __real_read(p->fd, rxbuf, sizeof(rxbuf));
 		if (n > 0) {
 			if (quietrx) TR("prxq %d %zd", p->id, n); else TR("prx %d %s", p->id, hexs(rxbuf, (size_t)n));
@@ -508,9 +509,12 @@ static void sf_obs(int sym, int fd, long req, long res)
 	if ((sym == SF_connect || sym == SF_writev || sym == SF_readv) && fd >= 0 && fd < MAXFD) libfd[fd] = 1;
 }
 /* 2: some socket still has unsent bytes queued; 1: sent but not yet acknowledged; 0: nothing in flight */
+static int any_deaf(void) { int i; for (i = 0; i < MAXPEER; i++) if (peers[i].used && peers[i].fd >= 0 && peers[i].deaf) return 1; return 0; }
 static int inflight(void)
 {
 	int i, worst = 0, n;
+	/* a peer that never reads keeps its sender's queue full for ever: nothing to wait for */
+	if (any_deaf()) return 0;
 	for (i = 0; i < MAXFD + MAXPEER; i++) {
 		int fd = i < MAXFD ? (libfd[i] ? i : -1) : (peers[i - MAXFD].used ? peers[i - MAXFD].fd : -1);
 		if (fd < 0) continue;
@@ -831,6 +835,16 @@ static void cmd(char **t, int nt)
 		struct blob b = blob_parse(t[2]);
 		if (q->used && q->state == RS_NEW && b.n) evbuffer_add(evhttp_request_get_output_buffer(q->r), b.p, b.n);
 		blob_free(&b);
+	}
+	else if (!strcmp(c, "rqbz") && nt >= 3) {
+		/* rqbz <rid> <nbytes>: a body of that many 'A's (too big to spell out in the script) */
+		struct rq *q = &rqs[A(t[1])];
+		long n = atol(t[2]);
+		if (q->used && q->state == RS_NEW && n > 0) {
+			static char blk[65536];
+			memset(blk, 'A', sizeof(blk));
+			while (n > 0) { size_t k = n > (long)sizeof(blk) ? sizeof(blk) : (size_t)n; evbuffer_add(evhttp_request_get_output_buffer(q->r), blk, k); n -= (long)k; }
+		}
 	}
 	else if (!strcmp(c, "oncb") && nt >= 5) {
 		/* oncb <rid> <c|e|k|h> <cancel|freecon|stop|mk> <target> */
